@@ -111,6 +111,7 @@ type FuncContract struct {
 	Pure     bool
 	Observer string
 	Inline   []string
+	InlCallees []string // `loop CALLEE.N ...`: loops of inlined callees; loop id = 1000*(index+1)+N
 	Fresh    []string // extern/trusted only: named pointer results that are freshly allocated when non-nil
 	Uses     []string
 	Induct   []string
@@ -535,10 +536,29 @@ func (cf *ContractFile) addClause(fc *FuncContract, text string, line int) error
 		if k < 0 {
 			return bad("bad loop clause")
 		}
-		n, err := strconv.Atoi(rest[:k])
-		if err != nil {
+		ordText := rest[:k]
+		base := 0
+		// `loop CALLEE.N`: loop N of the inlined callee CALLEE (a function, or a closure written F$1)
+		if d := strings.LastIndex(ordText, "."); d > 0 {
+			callee := ordText[:d]
+			ordText = ordText[d+1:]
+			idx := -1
+			for i, c := range fc.InlCallees {
+				if c == callee {
+					idx = i
+				}
+			}
+			if idx < 0 {
+				fc.InlCallees = append(fc.InlCallees, callee)
+				idx = len(fc.InlCallees) - 1
+			}
+			base = 1000 * (idx + 1)
+		}
+		n, err := strconv.Atoi(ordText)
+		if err != nil || n < 0 || n >= 1000 {
 			return bad("bad loop ordinal %q", rest[:k])
 		}
+		n += base
 		rest = strings.TrimSpace(rest[k:])
 		kw2, rest2 := rest, ""
 		if k := strings.IndexAny(rest, " \t"); k >= 0 {
